@@ -115,8 +115,41 @@ def build_udp(exe, rng, idx):
     return h.finish(kind="udp", dupint=dup)
 
 
+def build_abandoned(exe, rng, idx):
+    """the home server never answers: the forwarded copy runs out of retries and is given up; the client, whose DuplicateInterval is
+    longer than that, repeats its request - before and after it was given up, inside and outside the interval"""
+    cfg = W.rand_cfg(rng, rewrites=False, ttl=False, nclients=1, nservers=1, types=[rng.choice([0, 0, 3, 2])])
+    dup = rng.choice([10, 30, 60, 120])
+    cfg.clients[0].update(dup=dup, dup_explicit=True, rwin=None, rwout=None, rwuser=None, reqma=False, reqmap=False)
+    sv = cfg.servers[0]
+    sv.update(retry_explicit=True, rc=(rng.choice([0, 1, 2]) if sv["type"] in (0, 3) else 0), ri=rng.choice([1, 2, 3]), ss=rng.choice([0, 0, 1, 3]), rwin=None, rwout=None)
+    cfg.realms = [dict(name=b"*", srv=[sv["name"]], acc=[sv["name"]], msg=None, accresp=False)]
+    cfg.opts["verifyeap"] = 0
+    h = WH.Hist(exe, rng, cfg)
+    h.client(cfg.clients[0])
+    pkt = h.make_request(0, code=rng.choice([1, 4]), user=b"a@example.org", ident=rng.randrange(256), extra=[], pwd=False)
+    h.rq(0, pkt)
+    t = 0
+    for step in range(rng.randrange(6, 16)):
+        if h.s.dead:
+            break
+        r = rng.random()
+        if r < 0.45:
+            h.send("writer " + sv["name"])
+        elif r < 0.75:
+            d = rng.choice([1, 1, 2, sv["ri"], sv["ri"] + 1, dup - t - 1 if dup - t - 1 > 0 else 1, dup])
+            t += d
+            h.send("tick %d" % d)
+        else:
+            h.rq(0, pkt)
+            h.tag("dup")
+    h.send("pop 0")
+    return h.finish(kind="abandoned", dupint=dup)
+
+
 def gen_run(exe, rng, tier):
     return (WH.run_parallel(exe, rng, 150 if tier == "quick" else 4000, build_one) +
+            WH.run_parallel(exe, rng, 60 if tier == "quick" else 1500, build_abandoned) +
             WH.run_parallel(exe, rng, 60 if tier == "quick" else 1500, build_udp, jobs=8))
 
 
